@@ -271,6 +271,8 @@ func compileExprLHS(ctx *blockCtx, expr ast.Expr) {
 		compileSelectorExprLHS(ctx, v)
 	case *ast.StarExpr:
 		compileStarExprLHS(ctx, v)
+	case *ast.ParenExpr:
+		compileExprLHS(ctx, v.X)
 	default:
 		panic(ctx.newCodeErrorf(v.Pos(), "compileExprLHS failed: unknown - %T", expr))
 	}
